@@ -1469,6 +1469,27 @@ pub fn run_stream(name: &str, thorough: bool, rng: &mut Rng, o: &mut Out) {
                     d.build = vec![al("dup")];
                     vs.push(d);
                 }
+                if !vs.is_empty() && rng.chance(1, 6) {
+                    // components beyond what the parser produces, built through the public fields: neighbours above
+                    // 2^53 (equal as f64), around 2^63 and 2^64, in both orders
+                    let big: [u64; 6] = [9007199254740992, 9007199254740993, 9223372036854775807, 9223372036854775808, u64::MAX - 1, u64::MAX];
+                    let i = rng.below(5);
+                    let field = rng.below(3);
+                    let mut a = vs[0].clone();
+                    let mut b = vs[0].clone();
+                    a.pre_release = vec![];
+                    b.pre_release = vec![];
+                    match field {
+                        0 => { a.major = big[i]; b.major = big[i + 1]; }
+                        1 => { a.minor = big[i]; b.minor = big[i + 1]; }
+                        _ => { a.patch = big[i]; b.patch = big[i + 1]; }
+                    }
+                    if rng.chance(1, 2) { vs.push(a); vs.push(b); } else { vs.push(b); vs.push(a); }
+                    let star = "*".to_string();
+                    if let Ok(rs) = try_range(&star) {
+                        o.maxmin(&star, &rs, &vs);
+                    }
+                }
                 o.maxmin(&t, &r, &vs);
             }
         }
